@@ -14,14 +14,32 @@ ENUM_NOTE = ("Trusted base: the ignore / globset / serde_json / nix crates' own 
 
 # id -> (engine, technique, level text, design ref, note)
 CHECKS = {
+ "C01": ("dex/h-lib", "stateless exhaustive exploration (deviation-bounded DFS over task schedules and environment event orders) of a whole Watchexec instance with scripted filter verdicts; conservation oracle",
+         "Every event script up to the length bound over 9 event classes (priority x verdict x emptiness), 1-2 producers, queue sizes {1,2,4096}, throttle {0,2}, sync and gated handlers, every order of sends / ticks / handler completions and every schedule within the deviation bound: the multiset of event ids seen by the handler equals the accepted deliverable ones, each in exactly one batch, never a rejected one, never an empty batch, filter never consulted for urgent/empty events.", "7 C01", DEX_NOTE + " Real inotify / poll-watcher delivery is outside any bounded exhaustive check (DESIGN.md section 10)."),
+ "C02": ("dex/h-lib", "stateless exhaustive exploration of a whole Watchexec instance under virtual time; lower-bound oracle in every schedule, DebounceModel equality on the default schedule",
+         "Arrival patterns up to the length bound x throttle values (incl. 0 and run-time changes) x handler durations x every order of sends and ticks: no non-urgent batch before first-send + throttle in any schedule; on the default schedule batches and delivery ticks equal the executable DebounceModel (same-window events in one batch, urgent flushes unfiltered, rejected events do not postpone delivery).", "7 C02", DEX_NOTE),
  "C04": ("dex/h-supervisor", "stateless exhaustive exploration (deviation-bounded DFS over task schedules, select! branches and environment event orders) of the real job task with a simulated child",
-         "Every control script up to the length bound, every child reaction class, every spawn/kill/signal/wait fault position, every order of sends / child exit / ticks, and every schedule within the deviation bound is executed on the real start_job task; a live-child counter is checked at every spawn.", "7 C04", DEX_NOTE),
+         "Every control script up to the length bound (incl. the raw continue control), every child reaction class, every spawn/kill/signal/wait fault position, every order of sends / child exit / ticks, and every schedule within the deviation bound is executed on the real start_job task; a live-child counter is checked at every spawn and a spawn after an unreaped drop is a violation.", "7 C04", DEX_NOTE),
  "C06": ("dex/h-supervisor", "stateless exhaustive exploration of the real job task under virtual time, timed oracle on the simulated child's call log",
          "Same exploration as C04 plus marker scripts behind a graceful control; timed rules: no kill before t0+grace in any schedule, killed and reaped at every quiescent instant past t0+grace, normal controls held until the child ended, exactly one replacement per graceful restart.", "7 C06", DEX_NOTE),
  "C07": ("dex/h-supervisor", "stateless exhaustive exploration of the real job task; ticket deadlines checked at every quiescent instant; loom model checking of flag.rs",
          "Every ticket gets waiter task(s); at every quiescent instant of every explored execution the tickets that the documented semantics require to be resolved must have woken their waiters, including clones, shared job-gone flag, job termination by delete / delete_now / last handle dropped, and spawn/signal/kill/wait faults.", "7 C07", DEX_NOTE),
- "C10": ("dex/h-supervisor", "stateless exhaustive exploration of the real job task with marker closures probing pending higher-priority tickets",
-         "Markers, wait-for-end and delete-now from one or two senders, with and without an armed grace timer, as settled sends and bursts; per-sender order, at-most-once, and 'no normal control runs while an urgent (or immediately-completing high) one is pending' are checked in every explored schedule.", "7 C10", DEX_NOTE),
+ "C09": ("dex/h-supervisor + stateright", "trace inclusion of every explored execution of the real job task in an executable reference model (state-set tracking per observation), the model itself exhaustively explored with stateright",
+         "The JobModel (documented semantics of every Job method, nondeterministic only where the docs leave an order open) is checked with stateright BFS over all its reachable states for <=3 sends; every DEX execution's observation log (spawns, signals, kills, reaps, hook calls with their env effect, run() closures with current/previous state, tickets resolved at each quiescent instant) must be a trace of that model.", "7 C09, appendix A", DEX_NOTE + " Wait-call faults are not modelled (excluded from C09, covered by C04/C07)."),
+ "C10": ("dex/h-supervisor", "stateless exhaustive exploration of the real job task with marker closures at all three priorities probing pending higher-priority tickets",
+         "Markers at normal / high / urgent priority, wait-for-end and delete-now from one or two senders, with and without an armed grace timer, as settled sends and bursts; per-sender per-priority order, at-most-once, and 'no control runs while a strictly higher-priority one is pending' are checked in every explored schedule.", "7 C10", DEX_NOTE + " High/urgent marker closures are sent through a cfg(watchexec_verif) seam (the public API only sends fixed controls at those priorities)."),
+ "C11": ("enum/h-enum", "bounded-exhaustive enumeration of filterer configurations x probe events against a reference composition law and a metamorphic law",
+         "Every configuration of <=2 filters x ordered <=2 ignores (incl. negations) x extensions x whitelist x one ignore file over the glob grammar, each probed with 104 events (file/dir/unknown, inside/outside origin, 1- and 2-path, pathless): verdict equals the documented composition; adding a non-negated ignore never turns reject into pass.", "7 C11", ENUM_NOTE),
+ "C13": ("dex/h-lib", "stateless exhaustive exploration of the real fs worker with a recording / fault-injecting watcher; convergence oracle at every quiescent instant",
+         "Every sequence of path-set / watcher-kind / unrelated configuration changes up to the length bound over a 3-path universe with recursion flags, issued directly, from inside the action handler or the error handler, at quiescence, under preemption, or in the middle of the previous apply (inside any watch/unwatch call), with watch/unwatch failures: at every quiescent instant the live watcher's registrations equal the configured set (appendix D), errors are reported once per failed call.", "7 C13, appendix D", DEX_NOTE + " Sequences dropping two paths at once are explored only without in-call landings (the worker iterates a randomly seeded HashSet)."),
+ "C15": ("dex/h-lib", "stateless exhaustive exploration of a whole Watchexec instance with injected filter errors and watcher faults and scripted error-handler behaviours",
+         "Filter errors at every script position, watch/unwatch failures, error queue sizes {1,2,64}, error handler behaviours {record, elevate j-th, critical j-th, replace itself}: each awaited-send fault reaches the handler exactly once, other events are unaffected, main stays alive until an elevation and ends with exactly that critical error afterwards.", "7 C15", DEX_NOTE),
+ "C16": ("enum/h-enum", "bounded-exhaustive enumeration of events and of JSON tag objects against a reference decoder",
+         "All tag sequences of length <=2 over a 251-tag alphabet (all 41 fs kinds, all signals, all process-end shapes) x metadata shapes round-trip and use the documented field names; 3.7M JSON tag objects (8 kinds x 10 optional members x absent/valid/contradictory) parse to the kind's tag or Unknown, never another kind.", "7 C16", ENUM_NOTE),
+ "C17": ("enum/h-enum", "bounded-exhaustive enumeration of event batches against the EnvSummary laws",
+         "All batches of <=2 of 440 event shapes (paths x file type x kinds over a universe with shared/disjoint prefixes, prefix-siblings, duplicates): every (event, path, kind) recoverable from its variable, no spurious entries, sorted + deduplicated, COMMON = longest common directory, simple format one line per (kind, path).", "7 C17", ENUM_NOTE),
+ "C19": ("enum/h-enum", "complete enumeration of signal spellings, numbers and wait statuses against the documented tables",
+         "Every valid signal number x {short, SIG-prefixed, number} x {lower, upper, mixed}, all Windows names, all exit codes 0..255, all terminating signals x core bit, --map-signal over the same spellings.", "7 C19", ENUM_NOTE),
 }
 
 NOT_YET = {}
